@@ -133,6 +133,24 @@ fn main() {
         }
         st
     }).reduce(Stats::default, Stats::merge);
+    // the far future: every 97th day (thorough: every 7th) from 2200-01-01 to 9999-12-31, first and last second, plus the instants
+    // around 2^31, 2^32, 2^33 and i64::MAX / 10^9 seconds (the nanosecond range of a 64-bit clock ends on 2262-04-11)
+    let far_last: u64 = 2_932_896; // day index of 9999-12-31
+    if cal::field("compact_datetime", far_last * 86400 + 86399) != "99991231235959" { machinery_error("R-CAL self-test failed at 9999-12-31"); }
+    let stride = if quick { 97 } else { 7 };
+    let far_days: Vec<u64> = ((last_day + 1)..=far_last).step_by(stride).chain([far_last]).collect();
+    let s1b = far_days.par_iter().map(|&d| {
+        let mut st = Stats::default();
+        st.inc("far_future_days");
+        for s in [0u64, 86399] { for p in cal::PATTERNS { judge_pattern(&ctx, p, d * 86400 + s, &mut st); } }
+        st
+    }).reduce(Stats::default, Stats::merge);
+    let mut s1c = Stats::default();
+    for t in [2147483647u64, 2147483648, 4294967295, 4294967296, 8589934592, 9223372035, 9223372036, 9223372037, 9223372038, 10000000000, 32503680000, 99999999999, 253402300799] {
+        for p in cal::PATTERNS { judge_pattern(&ctx, p, t, &mut s1c); }
+        judge_calver(&ctx, "calver-base", t, "semver", &mut s1c);
+    }
+    let s1 = s1.merge(s1b).merge(s1c);
     // every second of boundary days
     let boundary_days: Vec<u64> = [(2000, 2, 28), (2000, 2, 29), (2000, 3, 1), (2100, 2, 28), (2100, 3, 1), (1999, 12, 31), (2000, 1, 1), (2024, 12, 29), (2024, 12, 30), (2018, 12, 31), (2019, 1, 1), (1970, 1, 1)]
         .iter().map(|&(y, m, d)| (0..=last_day).find(|&x| { let c = cal::civil(x * 86400); c.year == y && c.month == m && c.day == d }).unwrap()).collect();
@@ -248,7 +266,7 @@ fn main() {
     cov.evaluations = all.get("pattern_evaluations") + all.get("calver_evaluations") + all.get("schema_pattern_evaluations") + all.get("precedence_evaluations") + all.get("git_calver_evaluations") + all.get("git_pattern_evaluations");
     cov.traces_validated = cov.evaluations;
     cov.distinct_nontrivial = s1.get("days") * secs.len() as u64 * 16;
-    cov.rule = format!("resolve_timestamp on every day 1970-01-01..2199-12-31 ({} days) at seconds-of-day {secs:?} x 16 patterns, plus every {} second of 12 boundary days (leap days 2000/2100, year ends, week-53 years); the 11 calver presets through the in-process `zerv version --source none --bumped-timestamp` pipeline on {} days x first/last second; each pattern by name in a --schema-ron in each section; bumped/last timestamp precedence table via stdin RON; real git repositories at 12 boundary instants (commit time = committer date, author date 500 days off with a +0900 zone; HEAD on the branch and detached at the tag) x 11 calver presets x 16 patterns. The harness runs with TZ=JST-9 so that any local-time dependence is visible. non-trivial = (day, second, pattern) triples of the daily sweep", last_day + 1, if quick { "7th" } else { "single" }, cal_days.len());
+    cov.rule = format!("resolve_timestamp on every day 1970-01-01..2199-12-31 ({} days) at seconds-of-day {secs:?} x 16 patterns, every 97th (thorough 7th) day 2200-01-01..9999-12-31 and 13 instants around 2^31 / 2^32 / 2^33 / i64::MAX ns / year 9999, plus every {} second of 12 boundary days (leap days 2000/2100, year ends, week-53 years); the 11 calver presets through the in-process `zerv version --source none --bumped-timestamp` pipeline on {} days x first/last second; each pattern by name in a --schema-ron in each section; bumped/last timestamp precedence table via stdin RON; real git repositories at 12 boundary instants (commit time = committer date, author date 500 days off with a +0900 zone; HEAD on the branch and detached at the tag) x 11 calver presets x 16 patterns. The harness runs with TZ=JST-9 so that any local-time dependence is visible. non-trivial = (day, second, pattern) triples of the daily sweep", last_day + 1, if quick { "7th" } else { "single" }, cal_days.len());
     cov.exhaustive = true;
     cov.samples = vec![json!({"pattern":"0W","t":951782400u64,"expected":cal::field("0W", 951782400)}), json!({"preset":"calver-base","t":4107542399u64}), json!({"schema":"ts(\"compact_datetime\") in build","t":1709247600u64})];
     cov.set("clause_counts", all.to_json());
